@@ -92,6 +92,19 @@ def field_menu(spec, field, level):
     raise ValueError(field)
 
 
+def fresh(rec):
+    """Copy of a record in which every NaN is a new float object (as in real data streams): containers that key on the
+    value must not rely on the identity of one shared NaN constant."""
+    def f(v):
+        if isinstance(v, float) and v != v:
+            return float("nan")
+        if isinstance(v, tuple):
+            return tuple(f(i) for i in v)
+        return v
+
+    return {k: f(v) for k, v in rec.items()}
+
+
 DEFAULTS = {"x": 0.25, "y": 0.5, "c": "a", "s": True, "b": "p", "v": (0.0, 1.0)}
 
 
